@@ -338,8 +338,13 @@ def pair_obligations(ctx, clause):
     # yields of freshly opened maps are inside the try
     for y in (n for n in own_nodes(opener.node) if isinstance(n, ast.Yield)):
         inside_try = any(p is t and field == 'body' for p, field in enclosing(opener.node, y))
-        borrowed = any(isinstance(p, ast.If) and f'self.{mattr} is not None' in norm(p.test) and field == 'body'
-                       for p, field in enclosing(opener.node, y))
+        # a borrower yield is one that no registration of the cache (self.<map attr> = <non-None>) can reach:
+        # it hands out an object somebody else owns and has nothing to release
+        g = cfg_of(opener)
+        regs = [n for n in own_nodes(opener.node) if isinstance(n, ast.Assign) and
+                any(dotted(x) == f'self.{mattr}' for x in n.targets) and
+                not (isinstance(n.value, ast.Constant) and n.value.value is None)]
+        borrowed = not any(g.can_reach(g.node_for(r), g.node_for(y), skip_labels=('exc',)) for r in regs)
         ctx.decide(inside_try or borrowed, 'R-PAIR', clause, opener, y, 'yield-inside-try',
                    'the owner path yields inside the try whose finally releases',
                    detail='yield outside the try: GeneratorExit / exceptions skip the release')
